@@ -63,7 +63,8 @@ func (c17Stream) Generate(rng *rand.Rand, n int, thorough bool) []Case {
 				cs = append(cs, Case{Line: "c17 kind=busy6 tls=0", Kind: "busy"})
 				continue
 			}
-			cs = append(cs, Case{Line: "c17 kind=busy tls=" + fmt.Sprint(rng.Intn(2)), Kind: "busy"})
+			// (holder: what occupies the port - a plain listening socket, or another gldap server of this process)
+			cs = append(cs, Case{Line: "c17 kind=busy tls=" + fmt.Sprint(rng.Intn(2)) + " holder=" + []string{"socket", "gldap"}[rng.Intn(2)], Kind: "busy"})
 		case 1:
 			cs = append(cs, Case{Line: "c17 kind=malformed addr=" + hx([]byte(bad[rng.Intn(len(bad))])), Kind: "malformed"})
 		default:
@@ -113,6 +114,21 @@ func (c17Stream) Impl(c Case) string {
 				l.Close()
 				return "ok" // this host lets both coexist: not a failing listen
 			}
+		} else if p["kind"] == "busy" && p["holder"] == "gldap" {
+			// the port belongs to another gldap server that is up and serving
+			other, err := gldap.NewServer(gldap.WithLogger(hclog.NewNullLogger()))
+			if err != nil {
+				return "harness-error " + err.Error()
+			}
+			_ = other.Router(mux)
+			go func() { _ = other.Run(base) }()
+			for i := 0; i < 3000 && !other.Ready(); i++ {
+				time.Sleep(time.Millisecond)
+			}
+			if !other.Ready() {
+				return "harness-error the holder of the port did not come up"
+			}
+			defer func() { _ = other.Stop() }()
 		} else if p["kind"] == "busy" {
 			hold, err = net.Listen("tcp", base)
 			if err != nil {
